@@ -212,6 +212,8 @@ xml_get_val_arr(const uint8_t *xml_data, size_t xml_data_size,
 			if (1 != level &&
 			    0 == ee) /* Open some sub tag. */
 				continue;
+			if (cur_tag >= tag_arr_count) /* Sub tag inside target tag value. */
+				continue;
 			if (0 != mem_cmpn(tag_arr[cur_tag], tag_arr_cnt[cur_tag],
 			    TagStart, (size_t)((TagNameEnd + 1) - TagStart)))
 				continue; /* Name not match. */
